@@ -692,12 +692,6 @@ known.register('C05-netcdf-double-close', lambda spec, f: (
     spec.get('kind') == 'hist' and f.klass == 'after-second-close' and
     f.clause in ('open-handle-unreadable', 'open-handle-content')))
 
-known.register('C05-val2idx-bounds-inplace', lambda spec, f: (
-    spec.get('kind') == 'op' and spec['call'].get('q') in
-    ('val2idx', 'time2idx') and spec['call'].get('method') == 'bounds' and
-    f.clause in ('input-modified', 'inplace-write') and
-    f.klass in ('val2idx/bounds', 'time2idx/bounds')))
-
 known.register('C05-gettimes-635-inplace', lambda spec, f: (
     spec.get('kind') == 'op' and spec['file'].get('tflag635') and
     spec['call'].get('q') == 'getTimes' and f.klass == 'getTimes' and
